@@ -43,7 +43,8 @@ ASSUMPTIONS = [
 PROBES = ["invivo_pipeline_reads_checked", "invivo_restored_items_checked", "invivo_xprocess_items_checked", "resave_then_get", "get_from_disk", "save_crossed_max_rows", "resave_exported_item",
           "restart_clean", "restart_unclean", "multi_bundle", "item_cache_evicted", "bundle_cache_evicted",
           "absent_read", "fault_write_enospc", "fault_write_torn", "fault_read_eio", "fault_reported",
-          "read_after_fault_ok", "restart_after_fault", "dict_restore", "xprocess_restart", "numpy_integer_key", "two_failed_writes_in_one_op"]
+          "read_after_fault_ok", "restart_after_fault", "dict_restore", "xprocess_restart", "numpy_integer_key", "two_failed_writes_in_one_op",
+          "invivo_history_run_ok", "invivo_history_ws_plain", "invivo_history_ws_symlink", "invivo_history_ws_symlink_parent"]
 # the same check again, smaller, in interpreters started with assertions stripped (python -O / PYTHONOPTIMIZE=1)
 ENV_VARIANTS = [{"name": "python-O", "env": {"PYTHONOPTIMIZE": "1"}, "runs": {'quick': 900, 'thorough': 9000}}]
 TIERS = {
@@ -75,7 +76,7 @@ def setup_worker():
 
 # ----------------------------------------------------------------------------- generator
 
-P_INVIVO = {"quick": 0.004, "thorough": 0.015}
+P_INVIVO = {"quick": 0.006, "thorough": 0.015}
 
 
 def gen_knobs(rng, tier):
@@ -384,6 +385,9 @@ def execute_invivo(trace):
         probes["dict_restore"] = st["c15_dict_attrs_checked"]
     if st.get("c15_xprocess_items"):
         probes["invivo_xprocess_items_checked"] = st["c15_xprocess_items"]
+    for k_, v_ in st.items():
+        if k_.startswith("history_"):
+            probes["invivo_" + k_] = v_
     violation = None
     known = load_known(PID)
     cands = []
